@@ -10,8 +10,11 @@
  *   - loop-free POSITIONAL macros (character k of the text / byte k of the data as a function of the input),
  *     usable inside loop invariants with a ghost index;
  *   - the textbook LOOP coder/decoder spec_b64_encode / spec_b64_decode (24-bit groups; bit accumulator).
- * Unit base64_ref_selfcheck ties both to the test vectors of RFC 4648 section 10, proves them equal on all strings up to
- * a bound and proves, for every length, that the positional decoder inverts the positional encoder.
+ * The positional form comes in two notations: by bit position (SPEC_B64_*: 6-bit group k starts at bit 6k) and by 24-bit
+ * group (SPEC_B64Q_*: sizes and positions given as quotient and remainder, the notation the loop invariants use).
+ * Unit base64_ref_selfcheck ties them to the test vectors of RFC 4648 section 10, proves positional == loop on all strings
+ * up to a bound, bit-position notation == group notation for every size, and, for every size, that the positional decoder
+ * inverts the positional encoder.
  */
 #ifndef C18_BASE64_REF_H
 #define C18_BASE64_REF_H
@@ -52,6 +55,27 @@ static const char SPEC_B64_TABLE[2][65] = {
 #define SPEC_B64_ENC_CHAR(url, x, n, k)                                                                         \
     (SPEC_B64_IS_DATA_POS(n, k) ? SPEC_B64_TABLE[(url) ? 1 : 0][SPEC_B64_SEXTET(x, n, k)] : (char)SPEC_B64_PAD)
 
+/* ---- the same encoder, stated per 24-bit group (RFC 4648 section 4 wording) ----
+ * The size is given as n == 3*q + r (q complete groups of three bytes, r in 0..2 left-over bytes) and a position as
+ * k == 4*g + c (group g, character c in 0..3): all index arithmetic is then additions, shifts and a multiplication by 3,
+ * which is what makes the loop invariants cheap for a SAT solver (no 64-bit division, no window that straddles bytes).
+ * Group g is the 24-bit number b0 b1 b2 (bytes behind the end are zero), character c is bits [18-6c, 24-6c) of it.
+ * base64_ref_selfcheck PART=3 proves this form equal to SPEC_B64_ENC_CHAR for every q, r, k. */
+#define SPEC_B64_GRP(k) ((size_t)(k) / 4)
+#define SPEC_B64_POS(k) ((size_t)(k) % 4)
+#define SPEC_B64Q_ENC_LEN(q, r) (4 * ((size_t)(q) + ((r) != 0)))
+#define SPEC_B64Q_NDATA(q, r) (4 * (size_t)(q) + ((r) != 0 ? (size_t)(r) + 1 : 0))
+#define SPEC_B64Q_IS_DATA_POS(q, r, k)                                                                          \
+    (SPEC_B64_GRP(k) < (size_t)(q) || (SPEC_B64_GRP(k) == (size_t)(q) && (r) != 0 && SPEC_B64_POS(k) <= (size_t)(r)))
+#define SPEC_B64Q_BYTE(x, q, r, g, i)                                                                           \
+    (((g) < (size_t)(q) || (size_t)(i) < (size_t)(r)) ? (uint32_t)((const uint8_t *)(x))[3 * (g) + (i)] : (uint32_t)0)
+#define SPEC_B64Q_GROUP24(x, q, r, g)                                                                           \
+    (SPEC_B64Q_BYTE(x, q, r, g, 0) << 16 | SPEC_B64Q_BYTE(x, q, r, g, 1) << 8 | SPEC_B64Q_BYTE(x, q, r, g, 2))
+#define SPEC_B64Q_SEXTET(x, q, r, k) ((SPEC_B64Q_GROUP24(x, q, r, SPEC_B64_GRP(k)) >> (18 - 6 * SPEC_B64_POS(k))) & 63u)
+/* character k of the text, k < SPEC_B64Q_ENC_LEN(q, r) */
+#define SPEC_B64Q_ENC_CHAR(url, x, q, r, k)                                                                     \
+    (SPEC_B64Q_IS_DATA_POS(q, r, k) ? SPEC_B64_TABLE[(url) ? 1 : 0][SPEC_B64Q_SEXTET(x, q, r, k)] : (char)SPEC_B64_PAD)
+
 /* ---- positional decoder ---- */
 /* m = number of alphabet characters before the first pad / foreign character / end: floor(6m/8) bytes */
 #define SPEC_B64_DEC_LEN(m) (6 * (size_t)(m) / 8)
@@ -61,6 +85,26 @@ static const char SPEC_B64_TABLE[2][65] = {
     ((uint8_t)(((SPEC_B64_VAL(url, c0) << 6 | SPEC_B64_VAL(url, c1)) >> (4 - 8 * (size_t)(k) % 6)) & 0xFFu))
 #define SPEC_B64_DEC_BYTE(url, t, k)                                                                            \
     SPEC_B64_DEC_BYTE_OF(url, (t)[SPEC_B64_DEC_IDX(k)], (t)[SPEC_B64_DEC_IDX(k) + 1], k)
+
+/* ---- the same decoder, stated per 24-bit group ----
+ * The number of data characters is given as m == 4*mq + mr (mr in 0..3) and a byte as number 3*g + c (group g, byte c in
+ * 0..2).  Group g is the 24-bit number s0 s1 s2 s3 of the values of characters 4g..4g+3 (characters behind the data are
+ * zero bits), byte c is bits [16-8c, 24-8c) of it; a last group of 2 / 3 characters yields 1 / 2 bytes, a single left-over
+ * character yields none.  base64_ref_selfcheck PART=3 proves this form equal to SPEC_B64_DEC_BYTE / SPEC_B64_DEC_LEN. */
+#define SPEC_B64Q_DEC_LEN(mq, mr) (3 * (size_t)(mq) + ((mr) >= 2 ? (size_t)(mr) - 1 : 0))
+#define SPEC_B64Q_IS_DEC_BYTE(mq, mr, g, c) ((g) < (size_t)(mq) || ((g) == (size_t)(mq) && (size_t)(c) + 1 < (size_t)(mr)))
+/* nch = number of data characters among c0..c3 */
+#define SPEC_B64Q_DEC_GROUP24(url, c0, c1, c2, c3, nch)                                                         \
+    ((uint32_t)SPEC_B64_VAL(url, c0) << 18 | (uint32_t)((nch) > 1 ? SPEC_B64_VAL(url, c1) : 0u) << 12 |         \
+     (uint32_t)((nch) > 2 ? SPEC_B64_VAL(url, c2) : 0u) << 6 | (uint32_t)((nch) > 3 ? SPEC_B64_VAL(url, c3) : 0u))
+#define SPEC_B64Q_DEC_BYTE_OF(url, c0, c1, c2, c3, nch, c)                                                      \
+    ((uint8_t)((SPEC_B64Q_DEC_GROUP24(url, c0, c1, c2, c3, nch) >> (16 - 8 * (size_t)(c))) & 0xFFu))
+#define SPEC_B64Q_NCH(mq, mr, g) ((g) < (size_t)(mq) ? (size_t)4 : (size_t)(mr))
+/* byte 3g+c of the decoded data; characters behind the data are not read */
+#define SPEC_B64Q_DEC_BYTE(url, t, mq, mr, g, c)                                                                \
+    SPEC_B64Q_DEC_BYTE_OF(url, (t)[4 * (g)], (SPEC_B64Q_NCH(mq, mr, g) > 1 ? (t)[4 * (g) + 1] : (char)0),       \
+                          (SPEC_B64Q_NCH(mq, mr, g) > 2 ? (t)[4 * (g) + 2] : (char)0),                          \
+                          (SPEC_B64Q_NCH(mq, mr, g) > 3 ? (t)[4 * (g) + 3] : (char)0), SPEC_B64Q_NCH(mq, mr, g), c)
 
 /* ---- textbook loop coder (RFC 4648 section 4: 24-bit groups) ---- */
 static inline size_t spec_b64_encode(int url, const uint8_t *x, size_t n, char *out)
